@@ -60,7 +60,7 @@ Inductive case :=
 
 Definition min_prefix : N := 8.
 
-Definition corr (k : case) : bool :=
+Definition corr_model (k : case) : bool :=
   match k with
   | Case c t oimpl lvl dlen slen scap hasdst rk rest oextra cclass n emitted prefix dclass dn deq =>
     let i := impl_of c t in
@@ -91,6 +91,40 @@ Definition corr (k : case) : bool :=
             end
           else (dclass =? 3)%N)
     end
+  end.
+
+(* Running the list model costs time linear in the block (seconds per MiB of vm_compute).  For blocks above
+   `big_threshold` the model's answer is taken from its PROVED closed form instead of being executed:
+   GoProbe.C07.Proofs.compress_ok / decompress_ok show, for every size, that under `codec_ok` the model emits
+   exactly the library frame, reports its length, never shows the scratch contents, and Decompress returns
+   (len data, data) from every reader kind.  The symbolic codec of a case meets `codec_ok` iff the frame length L
+   satisfies 1 <= L <= bound (the native zstd wrapper never consults the bound); for the null encoder the "frame"
+   is the data itself.  Outside these conditions `corr_closed` answers false (a mismatch to be looked at). *)
+Definition big_threshold : N := 400000.
+
+Definition corr_closed (k : case) : bool :=
+  match k with
+  | Case c t oimpl lvl dlen slen scap hasdst rk rest oextra cclass n emitted prefix dclass dn deq =>
+    let i := impl_of c t in
+    impl_eqb i oimpl && (cclass =? 0)%N && negb prefix
+    && (if hasdst then
+          match t with
+          | ENull => (emitted =? dlen)%N
+          | _ => (1 <=? emitted)%N
+                 && (match t, i with EZstd, Native => true | _, _ => (emitted <=? bound_N t dlen)%N end)
+          end
+          && (n =? Z.of_N emitted)%Z && (dclass =? 0)%N && (dn =? Z.of_N dlen)%Z && deq
+        else
+          match t with ENull => false | _ => true end
+          && (n =? 0)%Z && (emitted =? 0)%N && (dclass =? 3)%N)
+  end.
+
+Definition corr (k : case) : bool :=
+  match k with
+  | Case _ _ _ _ dlen _ scap _ _ rest oextra _ _ _ _ _ _ _ =>
+    if ((big_threshold <? dlen) || (big_threshold <? scap) || (big_threshold <? rest)
+        || (big_threshold <? oextra))%N
+    then corr_closed k else corr_model k
   end.
 
 (* the specification, on the observed behaviour only: the compressor succeeds, reports what it emitted,
